@@ -161,7 +161,7 @@ def observe(tree, reg):
 
     def obs(n):
         m = n.meta
-        meta = None if m is None else sorted(m.items())
+        meta = None if not m else sorted(m.items())
         return (
             token_of(reg, n),
             n.data,
